@@ -5,7 +5,7 @@
    the observation for at least one order.
    go.mod case = (text, are the go/require/retract statements well formed, observed answer
    of findPkgPath for the module root and for the sub-directory `sub`). *)
-From Mk Require Import Lib.Bytes Cfg.Fs Cfg.GoMod Cfg.Pipeline.
+From Mk Require Import Lib.Bytes Cfg.Fs Cfg.GoMod Cfg.Pipeline Cfg.Env.
 
 Fixpoint assoc {A} (l : list (path * A)) (p : path) : option A :=
   match l with
@@ -120,3 +120,18 @@ Fixpoint gmismatches_from (i : nat) (cs : list gcase) : list nat :=
   | c :: t => if gcheck c then gmismatches_from (S i) t else i :: gmismatches_from (S i) t
   end.
 Definition gmismatches := gmismatches_from 0.
+
+(* ---------- MOCKERY_<BOOL KEY>=value on an otherwise valid configuration ---------- *)
+Record ecase := { e_val : str; e_exit : exit_class }.
+Definition echeck (c : ecase) : bool :=
+  match env_bool_key (e_val c), e_exit c with
+  | EnvUsed _, Exit0 => true
+  | EnvRefused, ExitErr => true
+  | _, _ => false
+  end.
+Fixpoint emismatches_from (i : nat) (cs : list ecase) : list nat :=
+  match cs with
+  | [] => []
+  | c :: t => if echeck c then emismatches_from (S i) t else i :: emismatches_from (S i) t
+  end.
+Definition emismatches := emismatches_from 0.
